@@ -65,4 +65,259 @@ theorem rangesFnG (cfg : Cfg) (g : Bool) (fuel : Nat) :
     RangesFn (fun s => tokLoopG cfg g fuel s.posMax s) :=
   fun lo s s' hms hr his => ranges_inductionG cfg g fuel _ lo s s' hms hr his
 
+/-! ## agreement: the guarded result is the model's result, or the guarded run stopped (`Panic.fuel`)
+
+`Agree a b`: `a` is the result over guarded callees, `b` over the model's.  Every function of the
+link machinery takes `skip_token` / `tokenize` as parameters and threads their errors through
+unchanged, so agreement of the callees gives agreement of the results. -/
+
+def Agree {α : Type} (a b : Except Panic α) : Prop := a = b ∨ a = .error .fuel
+def AgreeFn (f f' : IState → Except Panic IState) : Prop := ∀ s, Agree (f s) (f' s)
+
+theorem Agree.rfl' {α : Type} {a : Except Panic α} : Agree a a := .inl rfl
+
+/-- use the agreement `h` of a callee that is the scrutinee of the outermost `match` on the guarded
+    side: either the callee results are equal (rewrite, go on), or the guarded one is out of fuel -/
+macro "agree_call " h:term : tactic =>
+  `(tactic| (refine Or.elim $h (fun hh => ?_) (fun hh => by rw [hh]; exact Or.inr rfl); rw [hh]))
+
+theorem labelLoop_agree {skip skip' : IState → Except Panic IState} (hs : AgreeFn skip skip')
+    (en : Bool) : ∀ (n : Nat) (level : Int) (st : IState),
+    Agree (labelLoop skip en n level st) (labelLoop skip' en n level st) := by
+  intro n
+  induction n with
+  | zero => intro level st; exact .inl rfl
+  | succ n ih =>
+    intro level st
+    simp only [labelLoop]
+    split
+    · exact .inl rfl
+    · exact .inl rfl
+    · split
+      · exact .inl rfl
+      · agree_call hs st
+        repeat' split
+        all_goals first | exact .inl rfl | exact ih _ _
+
+theorem parseLinkLabel_agree {skip skip' : IState → Except Panic IState} (hs : AgreeFn skip skip')
+    (fuel : Nat) (st : IState) (start : Nat) (en : Bool) :
+    Agree (parseLinkLabel skip fuel st start en) (parseLinkLabel skip' fuel st start en) := by
+  unfold parseLinkLabel
+  simp only
+  agree_call labelLoop_agree hs en fuel 1 _
+  exact .inl rfl
+
+theorem parseLinkRef_agree (cfg : Cfg) {skip skip' : IState → Except Panic IState}
+    (hs : AgreeFn skip skip') (fuel : Nat) (st : IState) (ls le : Nat) :
+    Agree (parseLinkRef cfg skip fuel st ls le) (parseLinkRef cfg skip' fuel st ls le) := by
+  unfold parseLinkRef
+  simp only
+  split
+  · exact .inl rfl
+  · next w _ =>
+    rcases w with _ | ⟨c, tail⟩
+    · exact .inl rfl
+    · by_cases hc : c = '['
+      · subst hc
+        simp only []
+        agree_call parseLinkLabel_agree hs fuel st (le + 1) false
+        exact .inl rfl
+      · exact .inl (by simp [hc])
+
+theorem parseLink_agree (cfg : Cfg) {skip skip' : IState → Except Panic IState}
+    (hs : AgreeFn skip skip') (fuel : Nat) (st : IState) (pos : Nat) (en : Bool) :
+    Agree (parseLink cfg skip fuel st pos en) (parseLink cfg skip' fuel st pos en) := by
+  unfold parseLink
+  simp only
+  agree_call parseLinkLabel_agree hs fuel st pos en
+  split
+  · exact .inl rfl
+  · exact .inl rfl
+  · split
+    · exact .inl rfl
+    · exact .inl rfl
+    · exact parseLinkRef_agree cfg hs _ _ _ _
+
+theorem linkRule_agree (cfg : Cfg) {skip skip' tok tok' : IState → Except Panic IState}
+    (hs : AgreeFn skip skip') (ht : AgreeFn tok tok') (fuel : Nat)
+    (mk : List Nat → Option (List Char) → Val) (en : Bool) (offset : Nat) (st : IState)
+    (silent : Bool) :
+    Agree (linkRule cfg skip tok fuel mk en offset st silent)
+      (linkRule cfg skip' tok' fuel mk en offset st silent) := by
+  unfold linkRule
+  simp only
+  agree_call parseLink_agree cfg hs fuel st (st.pos + offset) en
+  split
+  · exact .inl rfl
+  · exact .inl rfl
+  · split
+    · exact .inl rfl
+    · agree_call ht _
+      exact .inl rfl
+
+theorem ruleLink_agree (cfg : Cfg) {skip skip' tok tok' : IState → Except Panic IState}
+    (hs : AgreeFn skip skip') (ht : AgreeFn tok tok') (fuel : Nat) (st : IState) (silent : Bool) :
+    Agree (ruleLink cfg skip tok fuel st silent) (ruleLink cfg skip' tok' fuel st silent) := by
+  unfold ruleLink
+  split
+  · exact .inl rfl
+  · exact .inl rfl
+  · split
+    · exact .inl rfl
+    · exact linkRule_agree cfg hs ht _ _ _ _ _ _
+
+theorem ruleImage_agree (cfg : Cfg) {skip skip' tok tok' : IState → Except Panic IState}
+    (hs : AgreeFn skip skip') (ht : AgreeFn tok tok') (fuel : Nat) (st : IState) (silent : Bool) :
+    Agree (ruleImage cfg skip tok fuel st silent) (ruleImage cfg skip' tok' fuel st silent) := by
+  unfold ruleImage
+  split
+  · exact .inl rfl
+  · exact linkRule_agree cfg hs ht _ _ _ _ _ _
+  · exact .inl rfl
+
+theorem runRule_agree (cfg : Cfg) {skip skip' tok tok' : IState → Except Panic IState}
+    (hs : AgreeFn skip skip') (ht : AgreeFn tok tok') (fuel : Nat) (id : RuleId) (st : IState)
+    (silent : Bool) :
+    Agree (runRule cfg skip tok fuel id st silent) (runRule cfg skip' tok' fuel id st silent) := by
+  unfold runRule
+  cases id
+  case link => exact ruleLink_agree cfg hs ht _ _ _
+  case image => exact ruleImage_agree cfg hs ht _ _ _
+  all_goals exact .inl rfl
+
+theorem firstRule_agree {run run' : RuleId → IState → RuleRes}
+    (h : ∀ id s, Agree (run id s) (run' id s)) : ∀ (rules : List RuleId) (st : IState),
+    Agree (firstRule run rules st) (firstRule run' rules st) := by
+  intro rules
+  induction rules with
+  | nil => intro st; exact .inl rfl
+  | cons r rs ih =>
+    intro st
+    simp only [firstRule]
+    agree_call h r st
+    split
+    · exact .inl rfl
+    · exact .inl rfl
+    · exact ih _
+
+theorem silentBumped_agree {run run' : IState → Bool → RuleRes}
+    (h : ∀ s b, Agree (run s b) (run' s b)) (st : IState) :
+    Agree (silentBumped run st) (silentBumped run' st) := by
+  unfold silentBumped
+  agree_call h _ true
+  exact .inl rfl
+
+theorem tokStep_agree (cfg : Cfg) {skip skip' tok tok' : IState → Except Panic IState}
+    (hs : AgreeFn skip skip') (ht : AgreeFn tok tok') (fuel : Nat) (st : IState) :
+    Agree (tokStep cfg skip tok fuel st) (tokStep cfg skip' tok' fuel st) := by
+  unfold tokStep
+  simp only
+  by_cases hl : st.level < cfg.maxNesting
+  · simp only [hl, ↓reduceIte]
+    agree_call firstRule_agree (run := fun id s => runRule cfg skip tok fuel id s false)
+      (run' := fun id s => runRule cfg skip' tok' fuel id s false)
+      (fun id s => runRule_agree cfg hs ht fuel id s false) cfg.chain st
+    exact .inl rfl
+  · simp only [hl, ↓reduceIte]
+    exact .inl rfl
+
+theorem skipStep_agree (cfg : Cfg) {skip skip' tok tok' : IState → Except Panic IState}
+    (hs : AgreeFn skip skip') (ht : AgreeFn tok tok') (fuel : Nat) (st : IState) :
+    Agree (skipStep cfg skip tok fuel st) (skipStep cfg skip' tok' fuel st) := by
+  unfold skipStep
+  simp only
+  agree_call firstRule_agree (run := fun id s => silentBumped (runRule cfg skip tok fuel id) s)
+    (run' := fun id s => silentBumped (runRule cfg skip' tok' fuel id) s)
+    (fun id s => silentBumped_agree (fun s b => runRule_agree cfg hs ht fuel id s b) s) cfg.chain st
+  exact .inl rfl
+
+/-! ## the guarded tokenizer agrees with the model -/
+
+theorem agree_G (cfg : Cfg) : ∀ fuel : Nat,
+    (∀ s, Agree (skipTokenG cfg true fuel s) (skipToken cfg fuel s)) ∧
+    (∀ e s, Agree (tokLoopG cfg true fuel e s) (tokLoop cfg fuel e s)) := by
+  intro fuel
+  induction fuel with
+  | zero =>
+    refine ⟨fun s => .inl rfl, fun e s => ?_⟩
+    unfold tokLoopG tokLoop
+    exact .inl rfl
+  | succ f ih =>
+    obtain ⟨ihs, iht⟩ := ih
+    have hs : AgreeFn (fun s => skipTokenG cfg true f s) (fun s => skipToken cfg f s) := ihs
+    have ht : AgreeFn (fun s => tokLoopG cfg true f s.posMax s) (fun s => tokLoop cfg f s.posMax s) :=
+      fun s => iht _ s
+    refine ⟨fun s => ?_, fun e s => ?_⟩
+    · unfold skipTokenG skipToken
+      cases List.lookup s.pos s.cache with
+      | some x =>
+        simp only
+        split
+        · exact .inr rfl
+        · exact .inl rfl
+      | none =>
+        simp only
+        split
+        · exact skipStep_agree cfg hs ht f s
+        · exact .inl rfl
+    · unfold tokLoopG tokLoop
+      split
+      · simp only
+        agree_call tokStep_agree cfg hs ht f s
+        generalize tokStep cfg (fun s => skipToken cfg f s) (fun s => tokLoop cfg f s.posMax s) f s = r
+        cases r with
+        | error e => exact .inl rfl
+        | ok st' => exact iht _ _
+      · exact .inl rfl
+
+theorem parseInlineG_agree (cfg : Cfg) (content : List Char) (mapping : Srcmap) :
+    Agree (parseInlineG cfg content mapping) (parseInline cfg content mapping) := by
+  unfold parseInlineG parseInline tokenize
+  agree_call (agree_G cfg (topFuel cfg content)).2 _ _
+  exact .inl rfl
+
+theorem parseInlineG_ok {cfg : Cfg} {content : List Char} {mapping : Srcmap} {cs : List Node}
+    (h : parseInlineG cfg content mapping = .ok cs) : parseInline cfg content mapping = .ok cs := by
+  rcases parseInlineG_agree cfg content mapping with h' | h'
+  · rw [← h', h]
+  · rw [h] at h'; cases h'
+
+/-! ## with the guard off: the model functions -/
+
+theorem G_false (cfg : Cfg) : ∀ fuel : Nat,
+    (∀ s, skipTokenG cfg false fuel s = skipToken cfg fuel s) ∧
+    (∀ e s, tokLoopG cfg false fuel e s = tokLoop cfg fuel e s) := by
+  intro fuel
+  induction fuel with
+  | zero =>
+    refine ⟨fun s => rfl, fun e s => ?_⟩
+    unfold tokLoopG tokLoop
+    rfl
+  | succ f ih =>
+    obtain ⟨ihs, iht⟩ := ih
+    have hs : (fun s => skipTokenG cfg false f s) = (fun s => skipToken cfg f s) := funext ihs
+    have ht : (fun s : IState => tokLoopG cfg false f s.posMax s) = (fun s => tokLoop cfg f s.posMax s) :=
+      funext fun s => iht _ s
+    refine ⟨fun s => ?_, fun e s => ?_⟩
+    · unfold skipTokenG skipToken
+      rw [hs, ht]
+      cases List.lookup s.pos s.cache with
+      | some x => simp
+      | none => rfl
+    · unfold tokLoopG tokLoop
+      split
+      · simp only
+        rw [hs, ht]
+        generalize tokStep cfg (fun s => skipToken cfg f s) (fun s => tokLoop cfg f s.posMax s) f s = r
+        cases r with
+        | error e => rfl
+        | ok st' => exact iht _ _
+      · rfl
+
+theorem skipTokenG_false (cfg : Cfg) (fuel : Nat) (s : IState) :
+    skipTokenG cfg false fuel s = skipToken cfg fuel s := (G_false cfg fuel).1 s
+
+theorem tokLoopG_false (cfg : Cfg) (fuel e : Nat) (s : IState) :
+    tokLoopG cfg false fuel e s = tokLoop cfg fuel e s := (G_false cfg fuel).2 e s
+
 end MdIt.Inline
